@@ -11,7 +11,7 @@ R5 accounting tallies are incremented unconditionally inside their type branch
 """
 import ast
 
-from ..core import AnalysisError, norm, loc, walk_no_nested, attr_chain, call_name
+from ..core import AnalysisError, norm, loc, walk_no_nested, attr_chain, call_name, receiver_name, find_calls
 from ..cfg import CFG
 
 AUTHZ = 'fim.authz.attribute_collector:ResourceAuthZAttributes'
@@ -205,38 +205,63 @@ def run(prog, rep):
                           'collecting from the serialized model must rebuild the topology and use the same collector')
 
     # ---- R4 ----
+    def appends(fn):
+        """[(attribute key text without self., value expr, call)] for self._attributes[K].append(V)"""
+        out = []
+        for c in ast.walk(fn):
+            if isinstance(c, ast.Call) and call_name(c) == 'append' and isinstance(c.func.value, ast.Subscript) and \
+                    ast.unparse(c.func.value.value) == 'self._attributes' and c.args:
+                out.append((ast.unparse(c.func.value.slice).replace('self.', ''), c.args[0], c))
+        return out
+
+    def chain_tail(e, n):
+        ch = attr_chain(e)
+        return tuple(ch[-n:]) if ch and len(ch) >= n else None
+
     nsl = az.methods.get('_collect_attributes_from_node_sliver')
-    ntxt = ast.unparse(nsl)
-    for f in ('sliver.capacities.core', 'sliver.capacities.ram', 'sliver.capacities.disk', 'sliver.site',
-              'sliver.attached_components_info.list_devices()', 'c.get_type()'):
-        rep.instance('R4', f'node collector reads {f}')
-        if f not in ntxt:
-            rep.violation('R4', loc(amod, nsl), f'{az.name}._collect_attributes_from_node_sliver', f'{f} not read',
-                          f'the node collector no longer reads {f}')
-    nstxt = ast.unparse(ns)
-    for f in ('sliver.capacities.bw', 'sliver.site'):
-        rep.instance('R4', f'service collector reads {f}')
-        if f not in nstxt:
-            rep.violation('R4', loc(amod, ns), f'{az.name}._collect_attributes_from_ns_sliver', f'{f} not read',
-                          f'the service collector no longer reads {f}')
-    # append targets of the node collector pair field and attribute id
-    pairs = {'RESOURCE_CPU': 'core', 'RESOURCE_RAM': 'ram', 'RESOURCE_DISK': 'disk'}
-    for n in ast.walk(nsl):
-        if isinstance(n, ast.Call) and call_name(n) == 'append' and isinstance(n.func.value, ast.Subscript):
-            key = ast.unparse(n.func.value.slice).replace('self.', '')
-            if key in pairs:
-                rep.instance('R4', f'node collector: {key} <- {norm(n.args[0])}')
-                if ast.unparse(n.args[0]) != f'sliver.capacities.{pairs[key]}':
-                    rep.violation('R4', loc(amod, n), f'{az.name}._collect_attributes_from_node_sliver', norm(n),
-                                  f'{key} must be fed from capacities.{pairs[key]}')
+    sl = [a.arg for a in nsl.args.args if a.arg != 'self'][0]
+    napp = appends(nsl)
+    want = {'RESOURCE_CPU': ('capacities', 'core'), 'RESOURCE_RAM': ('capacities', 'ram'), 'RESOURCE_DISK': ('capacities', 'disk'),
+            'RESOURCE_SITE': ('site',)}
+    for key, tail in want.items():
+        vals = [v for k, v, c in napp if k == key]
+        okv = bool(vals) and all(chain_tail(v, len(tail)) == tail and attr_chain(v)[0] == sl for v in vals)
+        rep.instance('R4', f'node collector: {key} <- {[norm(v) for v in vals]}')
+        if not okv:
+            rep.violation('R4', loc(amod, nsl), f'{az.name}._collect_attributes_from_node_sliver', f'{key} not fed from {sl}.{".".join(tail)}',
+                          f'attribute {key} must list {".".join(tail)} of every node; found {[norm(v) for v in vals] or "nothing"}')
+    comp = [(v, c) for k, v, c in napp if k == 'RESOURCE_COMPONENT']
+    okc = False
+    for v, c in comp:
+        loop = c
+        while loop is not None and not isinstance(loop, ast.For):
+            loop = getattr(loop, '_parent', None)
+        if loop is not None and isinstance(loop.iter, ast.Call) and call_name(loop.iter) == 'list_devices' and \
+                any(isinstance(x, ast.Call) and call_name(x) == 'get_type' and receiver_name(x) == ast.unparse(loop.target) for x in ast.walk(v)):
+            okc = True
+    rep.instance('R4', f'node collector: RESOURCE_COMPONENT <- type of every attached component: {okc}')
+    if not okc:
+        rep.violation('R4', loc(amod, nsl), f'{az.name}._collect_attributes_from_node_sliver', 'component types not collected',
+                      'the type of every attached component must be listed')
+    ssl = [a.arg for a in ns.args.args if a.arg != 'self'][0]
+    sapp = appends(ns)
+    for key, tail in (('RESOURCE_BW', ('capacities', 'bw')), ('RESOURCE_SITE', ('site',))):
+        vals = [v for k, v, c in sapp if k == key]
+        okv = bool(vals) and all(chain_tail(v, len(tail)) == tail and attr_chain(v)[0] == ssl for v in vals)
+        rep.instance('R4', f'service collector: {key} <- {[norm(v) for v in vals]}')
+        if not okv:
+            rep.violation('R4', loc(amod, ns), f'{az.name}._collect_attributes_from_ns_sliver', f'{key} not fed from {ssl}.{".".join(tail)}',
+                          f'attribute {key} must list {".".join(tail)} of every service')
     for cls in (az, lg):
         ctp = cls.methods.get('_collect_attributes_from_topo')
+        tp_ = [a.arg for a in ctp.args.args if a.arg != 'self'][0]
         its = [ast.unparse(n.iter) for n in ctp.body if isinstance(n, ast.For)]
-        for want in ('topo.nodes.values()', 'topo.network_services.values()', 'topo.facilities.values()'):
-            rep.instance('R4', f'{cls.name} topology collector iterates {want}')
-            if want not in its:
-                rep.violation('R4', loc(cls.module, ctp), f'{cls.name}._collect_attributes_from_topo', f'{want} not visited',
-                              f'the topology collector no longer visits {want}')
+        for view in ('nodes', 'network_services', 'facilities'):
+            okv = any(i.startswith(f'{tp_}.{view}') for i in its)
+            rep.instance('R4', f'{cls.name} topology collector iterates {view}: {okv}')
+            if not okv:
+                rep.violation('R4', loc(cls.module, ctp), f'{cls.name}._collect_attributes_from_topo', f'{view} not visited',
+                              f'the topology collector no longer visits the {view} of the topology')
 
     # ---- R5 tallies ----
     lns = lg.methods.get('_collect_attributes_from_node_sliver')
@@ -251,16 +276,27 @@ def run(prog, rep):
     while cur is not None:
         chain.append(cur)
         cur = cur.orelse[0] if len(cur.orelse) == 1 and isinstance(cur.orelse[0], ast.If) else None
-    want = {'VM': "self._attributes['vm_count']", 'Switch': "self._attributes['p4_count']", 'Facility': "self._attributes['facilities']"}
+    want = {'VM': 'vm_count', 'Switch': 'p4_count', 'Facility': 'facilities'}
+
+    def updates(stmt, counter):
+        """does the statement update self._attributes[<counter>] (+= / .add / .append)?"""
+        if isinstance(stmt, ast.AugAssign) and isinstance(stmt.target, ast.Subscript) and \
+                ast.unparse(stmt.target.value) == 'self._attributes' and isinstance(stmt.target.slice, ast.Constant) and stmt.target.slice.value == counter:
+            return True
+        if isinstance(stmt, ast.Expr) and isinstance(stmt.value, ast.Call) and isinstance(stmt.value.func, ast.Attribute) and \
+                stmt.value.func.attr in ('add', 'append') and isinstance(stmt.value.func.value, ast.Subscript) and \
+                ast.unparse(stmt.value.func.value.value) == 'self._attributes' and isinstance(stmt.value.func.value.slice, ast.Constant) \
+                and stmt.value.func.value.slice.value == counter:
+            return True
+        return False
     seen = set()
     for br in chain:
         ttxt = ast.unparse(br.test)
         for tname, counter in want.items():
             if f'NodeType.{tname}' in ttxt:
                 seen.add(tname)
-                direct = [s for s in br.body if counter in ast.unparse(s) and
-                          (isinstance(s, ast.AugAssign) or (isinstance(s, ast.Expr) and isinstance(s.value, ast.Call)))]
-                anywhere = [s for s in ast.walk(br) if isinstance(s, (ast.AugAssign, ast.Expr)) and counter in ast.unparse(s)]
+                direct = [st for st in br.body if updates(st, counter)]
+                anywhere = [st for st in ast.walk(br) if isinstance(st, ast.stmt) and updates(st, counter)]
                 rep.instance('R5', f'{fq}: {tname} branch updates {counter}: direct={len(direct)} total={len(anywhere)}')
                 if not direct:
                     rep.violation('R5', loc(lmod, br), fq, f'{counter} not updated unconditionally in the {tname} branch',
@@ -270,13 +306,17 @@ def run(prog, rep):
     for tname in want:
         if tname not in seen:
             rep.violation('R5', loc(lmod, lns), fq, f'no branch for NodeType.{tname}', f'{tname} nodes are not tallied')
-    ltxt = ast.unparse(lns)
-    for f, what in (("self._attributes['core_count'] += cap.core", 'core tally'),
-                    ("self._attributes['sites'].add(sliver.site)", 'site tally'),
-                    ('self._collect_attributes_from_component_sliver(c)', 'component tally')):
-        rep.instance('R5', f'{fq}: {what}')
-        if f not in ltxt:
-            rep.violation('R5', loc(lmod, lns), fq, f'{what} missing', f'expected statement {f}')
+    lsl = [a.arg for a in lns.args.args if a.arg != 'self'][0]
+    core_upd = [st for st in ast.walk(lns) if isinstance(st, ast.stmt) and updates(st, 'core_count')]
+    site_upd = [st for st in ast.walk(lns) if isinstance(st, ast.stmt) and updates(st, 'sites')]
+    comp_calls = [c for c in find_calls(lns, '_collect_attributes_from_component_sliver', nested=True)]
+    for what, okv in (('core tally adds the cores of the capacity', bool(core_upd) and ast.unparse(core_upd[0].value).endswith('.core')),
+                      ('site tally adds the node site', bool(site_upd) and ast.unparse(site_upd[0].value.args[0]) == f'{lsl}.site'),
+                      ('component tally visits every attached component', bool(comp_calls) and isinstance(comp_calls[0]._parent._parent, ast.For)
+                       and call_name(comp_calls[0]._parent._parent.iter) == 'list_devices')):
+        rep.instance('R5', f'{fq}: {what}: {okv}')
+        if not okv:
+            rep.violation('R5', loc(lmod, lns), fq, what, f'the accounting summary no longer satisfies: {what}')
     # capacity preference: allocations, else capacities
     lcs = lg.methods.get('_collect_attributes_from_component_sliver')
     rep.instance('R5', 'component tally increments by one per component')
